@@ -37,6 +37,9 @@ CLAIMS['C12'] = dict(cat='proof', ref='DESIGN.md 5/C12',
 CLAIMS['C13'] = dict(cat='proof', ref='DESIGN.md 5/C13',
    text='Ghost row/unit tracking through the cut chunk loop: column k of every chunk holds row k of the input, converted to its declared unit (incompatible units raise), pixels contiguous and in order, staging buffer float32; row selection and order of _split_pix_rows; pixel metadata (N, min/max per row in row unit); experiment record: 1-based run id, meV, radians, angular_is_degree False, one record per run in order; one shared instrument/sample object with n indices written 1-based; IR-level round trip parse(serialize(x)) for sample and projection: same SI value and same physical dimension for every unit-bearing field. Bounded: real files compared through the independent decoder and the package reader. One open known finding (reader labels alatt 1/angstrom).',
    note='Trusted: mock rows/buffer/token sink, scipp model, numpy float32 assignment rounds once; byte-level inverse rests on C12 and the bounded decoder. Known finding listed in known_findings.json (not counted as discharged).')
+CLAIMS['C20'] = dict(cat='proof', ref='DESIGN.md 5/C20',
+   text='_find_line_with_isotope: the real while-loop is cut mechanically and the invariant "no earlier line matched" proves, for an arbitrary file, that the remainder of the FIRST exactly matching line is returned and None only if no line matches; _parse_line maps field k to columns (2k, 2k+1) with fm/barn for arbitrary field contents; _assemble_scalar: None iff blank, value, variance = uncertainty^2 or none; Atom.for_isotope: Z and weight from the element row, mass looked up iff a specific isotope; loaders skip exactly the two header lines; all 371+118+3557 rows and ~1700 near-miss names are evaluated natively against an independent csv parse (complete enumeration); attenuation = n (sigma_s + sigma_a lambda / 1.7982 A) in inverse length for symbolic unit scales.',
+   note='Trusted: abstract text-file model (readline/split/str equality), while-loop cutting, one quantified invariant in z3, float(str), re.match for the isotope-name pattern (exercised on every table name), scipp model for the 1/v law.')
 NA = {}
 checks = []
 for p in props:
